@@ -1,0 +1,8 @@
+//go:build verif
+
+package blockwise
+
+// VerifSizes reports the number of entries in the receiving and sending caches.
+func (b *BlockWise[C]) VerifSizes() (receiving, sending int) {
+	return b.receivingMessagesCache.Length(), b.sendingMessagesCache.Length()
+}
